@@ -179,6 +179,11 @@ def main():
     mod = load_prop(pid)
 
     gate = common.lean_gate(pid)
+    if tier == "thorough" and gate["build_ok"] and not a.replay:
+        gate["leanchecker"] = common.lean_recheck(pid)
+        if not gate["leanchecker"]["ok"]:
+            gate["problems"].append(f"leanchecker rejected {gate['leanchecker']['module']}: "
+                                    f"{gate['leanchecker'].get('output_tail', '')[-200:]}")
     if not gate["build_ok"] and not common.DRIVER.exists():
         print("HARNESS-ERROR: lake build failed and no driver binary is available")
         print(gate["build_log_tail"])
@@ -285,6 +290,7 @@ def main():
                            "(#print axioms of every theorem below; run by ./check on every call)",
             "trusted_base": mod.TRUSTED_BASE,
             "theorems": gate["theorems"],
+            "leanchecker": gate.get("leanchecker", "quick tier: not run (thorough tier re-checks the theorem module)"),
             "statements_not_proved": gate["statements_only"],
             "partial_note": gate["partial_note"],
             "evaluations": acc["evals"],
